@@ -1,5 +1,7 @@
 import Qryn.Http.MainOrder
+import Qryn.Http.AuthConfig
 import Qryn.Gen.Routes
+import Qryn.Gen.AuthConfig
 namespace Driver.C20
 open Qryn Qryn.Http
 
@@ -49,6 +51,17 @@ def viewSpecs : List RouteSpec :=
    ⟨false, [l "/v/datasources/", .var], "/v/datasources/{ds}", [], "view", true⟩,
    ⟨true, [l "/"], "/", [], "view", true⟩]
 
+/-- `NAME:hex` (set, `-` = empty) or `NAME:none` (unset), comma separated; `-` = no variable at all -/
+def parseEnv (s : String) : Option (List (String × Option Bytes)) :=
+  if s = "-" then some [] else
+  (s.splitOn ",").mapM (fun kv => match kv.splitOn ":" with
+    | [k, v] => (optHex v).map (fun x => (k, x))
+    | _ => none)
+
+def showInst : Option (Bytes × Bytes) → String
+  | none => "none"
+  | some (u, p) => s!"{hexOut u},{hexOut p}"
+
 def reached (r : Resp) : Option Nat :=
   r.effects.findSome? (fun e => match e with | .handler i => some i | _ => none)
 
@@ -83,5 +96,14 @@ def handle : List String → Option String
     match reached r with
     | some i => pure (if cs.contains 'b' then "reached" else s!"reached {i} cors={b01 (hdr r "Access-Control-Allow-Origin").isSome}")
     | none => pure s!"{r.status} ce={b01 (hdr r "Content-Encoding").isSome} cors={b01 (hdr r "Access-Control-Allow-Origin").isSome} www={b01 (hdr r "WWW-Authenticate").isSome}"
+  -- the configuration path: the regenerated plan of portEnv interpreted on (file credentials, environment)
+  | ["c20eff", fu, fp, env] => do
+    let fu ← ofHex fu; let fp ← ofHex fp; let e ← parseEnv env
+    let eff := AuthConfig.runPlan (AuthConfig.Env.ofList e) Qryn.Gen.AuthConfig.plan ⟨fu, fp⟩
+    pure s!"{hexOut eff.user},{hexOut eff.pass}"
+  -- … followed by main()'s guard: which BasicAuthMiddleware(login, pass) is installed, if any
+  | ["c20inst", fu, fp, env] => do
+    let fu ← ofHex fu; let fp ← ofHex fp; let e ← parseEnv env
+    pure (showInst (AuthConfig.installed Qryn.Gen.AuthConfig.plan Qryn.Gen.AuthConfig.install (AuthConfig.Env.ofList e) ⟨fu, fp⟩))
   | _ => none
 end Driver.C20
